@@ -37,7 +37,9 @@ static std::string classify(const MUri &in, unsigned mask, bool second, const st
   return "";
 }
 
-template <class A> static Verdict norm_once(const std::string &text, const MUri &in, unsigned mask, bool owned, bool useMm, std::string *out) {
+// fault > 0 (recording manager only): the fault-th allocation of the first normalising call fails once; a call that
+// reports the failure ends the sub-case (*failed = true), one that still reports success is held to the model
+template <class A> static Verdict norm_once(const std::string &text, const MUri &in, unsigned mask, bool owned, bool useMm, std::string *out, int fault = 0, bool *failed = nullptr) {
   using Ch = typename A::Ch;
   LedgerMM mm;
   UriMemoryManager *m = useMm ? &mm.mm : nullptr;
@@ -50,7 +52,17 @@ template <class A> static Verdict norm_once(const std::string &text, const MUri 
   if (rc != 0) return Verdict::discard();
   struct Cl { typename A::Uri *u; UriMemoryManager *m; ~Cl() { A::FreeUriMembersMm(u, m); } } cl{&u, m};
   if (owned) VF_REQUIRE(A::MakeOwnerMm(&u, m) == 0, "%s: uriMakeOwner failed", A::name());
+  if (fault > 0 && useMm) { mm.reset_counts(); mm.fail_at = (uint64_t)fault; }
   rc = useMm ? A::NormalizeSyntaxExMm(&u, mask, m) : (mask == 63 ? A::NormalizeSyntaxEx(&u, (unsigned)-1) : A::NormalizeSyntaxEx(&u, mask));
+  bool bit = mm.failed > 0;
+  mm.reset_plan();
+  if (bit && rc != 0) {
+    VF_REQUIRE(rc == URI_ERROR_MALLOC, "%s: allocation %d failed but normalisation rc=%d", A::name(), fault, rc);
+    if (failed) *failed = true;
+    stats().hit("normalisation_ran_out_of_memory");
+    return Verdict::pass();
+  }
+  if (bit) stats().hit("fault_bit_but_success_reported");
   VF_REQUIRE(rc == 0, "%s: normalisation rc=%d", A::name(), rc);
   stats().sub_evaluations++;
   std::string wf = wellformed<A>(u);
@@ -97,6 +109,19 @@ template <class A> static Verdict check_type(const std::string &text, const MUri
       if (v.kind != Verdict::PASS) return v;
       if (mask == 63) full = t;
       if (mask == 0) none = t;
+    }
+  }
+  // allocation failures (recording manager): every position k, both start states, the full mask
+  if (useMm) {
+    for (int owned = 0; owned < 2; owned++) {
+      for (int k = 1; k <= 12; k++) {
+        std::string t;
+        bool failed = false;
+        Verdict v = norm_once<A>(text, in, 63, owned != 0, true, &t, k, &failed);
+        if (v.kind != Verdict::PASS) return v;
+        if (!failed && t != full) return Verdict::fail(std::string(A::name()) + ": with allocation " + std::to_string(k) + " failing the call reports success but gives '" + esc(t) + "' instead of '" + esc(full) + "'");
+        if (!failed) break;  // the plan did not bite any more: larger k behave the same
+      }
     }
   }
   // the mask query
